@@ -988,8 +988,8 @@ def foreign_types_note(ck):
 
 def main():
     ck = Check("C14", "Spaces: exact membership, member samples, coherent equality")
-    ck.mode = "FP32"
-    ck.bound(leaf_elements="<= 4 per leaf (quick) / <= 6 (thorough)", nesting_depth=2, arity="<= 3",
+    ck.mode = "FP32 (contains, canonical, Box.__eq__); REAL (sample, flatten_sample); CrossHair (other __eq__/__hash__)"
+    ck.bound(leaf_elements="<= 6 per leaf", nesting_depth=2, arity="<= 3",
              integer_candidates=f"|x| <= 2^24 (exactly representable in float32)",
              box_bounds="symbolic float32 incl. +-inf for contains; canonical(): non-NaN, low <= high, low < +inf, high > -inf, finite bounds |b| <= 2^126; "
                         "sample(): every combination of finite/infinite bound per element, finite bounds symbolic reals with low <= high",
@@ -1019,8 +1019,9 @@ def main():
     ck.finish("contains of Box/Discrete/MultiDiscrete/MultiBinary and of nested Tuple/Dict spaces is traced once per Python branch decision (path forking on "
               "bool(tracer)) and interpreted over z3 float32/integer/boolean terms with the candidate (incl. NaN, +-inf) and the Box bounds symbolic; on every "
               "path the result must be a scalar boolean (read off the IR) equal to the membership predicate of the statement, written independently; "
-              "candidate dtype and shape classes are static configurations. sample() (PRNG draws = contract-constrained uninterpreted functions) and "
-              "canonical() must satisfy the same predicate; Discrete.sample must return an index the mask allows; flatten_sample has flat_size entries "
+              "candidate dtype and shape classes are static configurations. sample() (PRNG draws = contract-constrained uninterpreted functions; over the "
+              "reals, one query per finite/infinite class of the Box bounds) and canonical() (float32, symbolic bounds) must satisfy the same predicate "
+              "(which contains is shown to equal, so this is contains(sample()) / contains(canonical())); Discrete.sample must return an index the mask allows; flatten_sample has flat_size entries "
               "(IR) and is injective on members (2-safety query). __eq__/__hash__ of Discrete/MultiDiscrete/MultiBinary/Tuple/Dict and nestings are decided "
               "by CrossHair over symbolic sizes, arities and keys; Box.__eq__ by a path-forking trace. Counterexamples are re-run on the real classes.")
 
